@@ -85,11 +85,12 @@ class bound_scalar_array(base_array):
         self._values.insert(idx, value)
 
     def extend(self, values):
+        values = list(values)
         if not values:
             return
         if self._max_len and len(self) + len(values) > self._max_len:
             raise ProphyError("exceeded array limit")
-        self._values.extend(map(self._TYPE._check, values))
+        self._values.extend(list(map(self._TYPE._check, values)))
 
     def remove(self, elem):
         self._values.remove(elem)
@@ -166,6 +167,7 @@ class bound_composite_array(base_array):
         return new_element
 
     def extend(self, elem_seq):
+        elem_seq = list(elem_seq)
         if self._max_len and len(self) + len(elem_seq) > self._max_len:
             raise ProphyError("exceeded array limit")
 
